@@ -9,6 +9,12 @@ type nat =
 | O
 | S of nat
 
+(** val option_map : ('a1 -> 'a2) -> 'a1 option -> 'a2 option **)
+
+let option_map f = function
+| Some a -> Some (f a)
+| None -> None
+
 (** val snd : ('a1 * 'a2) -> 'a2 **)
 
 let snd = function
@@ -369,6 +375,39 @@ module Coq_Pos =
   let rec of_succ_nat = function
   | O -> XH
   | S x -> succ (of_succ_nat x)
+
+  (** val of_uint_acc : uint -> positive -> positive **)
+
+  let rec of_uint_acc d acc =
+    match d with
+    | Nil -> acc
+    | D0 l -> of_uint_acc l (mul (XO (XI (XO XH))) acc)
+    | D1 l -> of_uint_acc l (add XH (mul (XO (XI (XO XH))) acc))
+    | D2 l -> of_uint_acc l (add (XO XH) (mul (XO (XI (XO XH))) acc))
+    | D3 l -> of_uint_acc l (add (XI XH) (mul (XO (XI (XO XH))) acc))
+    | D4 l -> of_uint_acc l (add (XO (XO XH)) (mul (XO (XI (XO XH))) acc))
+    | D5 l -> of_uint_acc l (add (XI (XO XH)) (mul (XO (XI (XO XH))) acc))
+    | D6 l -> of_uint_acc l (add (XO (XI XH)) (mul (XO (XI (XO XH))) acc))
+    | D7 l -> of_uint_acc l (add (XI (XI XH)) (mul (XO (XI (XO XH))) acc))
+    | D8 l ->
+      of_uint_acc l (add (XO (XO (XO XH))) (mul (XO (XI (XO XH))) acc))
+    | D9 l ->
+      of_uint_acc l (add (XI (XO (XO XH))) (mul (XO (XI (XO XH))) acc))
+
+  (** val of_uint : uint -> n **)
+
+  let rec of_uint = function
+  | Nil -> N0
+  | D0 l -> of_uint l
+  | D1 l -> Npos (of_uint_acc l XH)
+  | D2 l -> Npos (of_uint_acc l (XO XH))
+  | D3 l -> Npos (of_uint_acc l (XI XH))
+  | D4 l -> Npos (of_uint_acc l (XO (XO XH)))
+  | D5 l -> Npos (of_uint_acc l (XI (XO XH)))
+  | D6 l -> Npos (of_uint_acc l (XO (XI XH)))
+  | D7 l -> Npos (of_uint_acc l (XI (XI XH)))
+  | D8 l -> Npos (of_uint_acc l (XO (XO (XO XH))))
+  | D9 l -> Npos (of_uint_acc l (XI (XO (XO XH))))
 
   (** val to_little_uint : positive -> uint **)
 
@@ -731,6 +770,17 @@ module Z =
   | N0 -> Z0
   | Npos p -> Zpos p
 
+  (** val of_uint : uint -> z **)
+
+  let of_uint d =
+    of_N (Coq_Pos.of_uint d)
+
+  (** val of_int : signed_int -> z **)
+
+  let of_int = function
+  | Pos d0 -> of_uint d0
+  | Neg d0 -> opp (of_uint d0)
+
   (** val to_int : z -> signed_int **)
 
   let to_int = function
@@ -794,6 +844,110 @@ type 'a outcome =
 | Ret of 'a
 | Raise of exn
 
+(** val uint_of_char : char -> uint option -> uint option **)
+
+let uint_of_char a = function
+| Some d0 ->
+  (* If this appears, you're using Ascii internals. Please don't *)
+ (fun f c ->
+  let n = Char.code c in
+  let h i = (n land (1 lsl i)) <> 0 in
+  f (h 0) (h 1) (h 2) (h 3) (h 4) (h 5) (h 6) (h 7))
+    (fun b b0 b1 b2 b3 b4 b5 b6 ->
+    if b
+    then if b0
+         then if b1
+              then if b2
+                   then None
+                   else if b3
+                        then if b4
+                             then if b5
+                                  then None
+                                  else if b6 then None else Some (D7 d0)
+                             else None
+                        else None
+              else if b2
+                   then None
+                   else if b3
+                        then if b4
+                             then if b5
+                                  then None
+                                  else if b6 then None else Some (D3 d0)
+                             else None
+                        else None
+         else if b1
+              then if b2
+                   then None
+                   else if b3
+                        then if b4
+                             then if b5
+                                  then None
+                                  else if b6 then None else Some (D5 d0)
+                             else None
+                        else None
+              else if b2
+                   then if b3
+                        then if b4
+                             then if b5
+                                  then None
+                                  else if b6 then None else Some (D9 d0)
+                             else None
+                        else None
+                   else if b3
+                        then if b4
+                             then if b5
+                                  then None
+                                  else if b6 then None else Some (D1 d0)
+                             else None
+                        else None
+    else if b0
+         then if b1
+              then if b2
+                   then None
+                   else if b3
+                        then if b4
+                             then if b5
+                                  then None
+                                  else if b6 then None else Some (D6 d0)
+                             else None
+                        else None
+              else if b2
+                   then None
+                   else if b3
+                        then if b4
+                             then if b5
+                                  then None
+                                  else if b6 then None else Some (D2 d0)
+                             else None
+                        else None
+         else if b1
+              then if b2
+                   then None
+                   else if b3
+                        then if b4
+                             then if b5
+                                  then None
+                                  else if b6 then None else Some (D4 d0)
+                             else None
+                        else None
+              else if b2
+                   then if b3
+                        then if b4
+                             then if b5
+                                  then None
+                                  else if b6 then None else Some (D8 d0)
+                             else None
+                        else None
+                   else if b3
+                        then if b4
+                             then if b5
+                                  then None
+                                  else if b6 then None else Some (D0 d0)
+                             else None
+                        else None)
+    a
+| None -> None
+
 module NilEmpty =
  struct
   (** val string_of_uint : uint -> char list **)
@@ -810,6 +964,12 @@ module NilEmpty =
   | D7 d0 -> '7'::(string_of_uint d0)
   | D8 d0 -> '8'::(string_of_uint d0)
   | D9 d0 -> '9'::(string_of_uint d0)
+
+  (** val uint_of_string : char list -> uint option **)
+
+  let rec uint_of_string = function
+  | [] -> Some Nil
+  | a::s1 -> uint_of_char a (uint_of_string s1)
  end
 
 module NilZero =
@@ -820,11 +980,26 @@ module NilZero =
   | Nil -> '0'::[]
   | _ -> NilEmpty.string_of_uint d
 
+  (** val uint_of_string : char list -> uint option **)
+
+  let uint_of_string s = match s with
+  | [] -> None
+  | _::_ -> NilEmpty.uint_of_string s
+
   (** val string_of_int : signed_int -> char list **)
 
   let string_of_int = function
   | Pos d0 -> string_of_uint d0
   | Neg d0 -> '-'::(string_of_uint d0)
+
+  (** val int_of_string : char list -> signed_int option **)
+
+  let int_of_string s = match s with
+  | [] -> None
+  | a::s' ->
+    if (=) a '-'
+    then option_map (fun x -> Neg x) (uint_of_string s')
+    else option_map (fun x -> Pos x) (uint_of_string s)
  end
 
 (** val type_order : (char list * z) list **)
@@ -4733,31 +4908,35 @@ let rec assoc_stmt n0 = function
 | [] -> None
 | p :: r -> let (k, s) = p in if eqb0 n0 k then Some s else assoc_stmt n0 r
 
+(** val offset_text : z -> char list **)
+
+let offset_text z0 =
+  if Z.ltb Z0 z0
+  then append ('['::('t'::('+'::[]))) (append (string_of_Z z0) (']'::[]))
+  else if Z.eqb z0 Z0
+       then '['::('t'::(']'::[]))
+       else append ('['::('t'::[])) (append (string_of_Z z0) (']'::[]))
+
 (** val code_index : char list -> (z * char list) option **)
 
 let code_index s =
   match prefix_rest ('['::('t'::[])) s with
-  | Some s1 ->
-    (match s1 with
+  | Some r ->
+    let (body, r2) = span_while (fun c -> negb ((=) c ']')) r in
+    (match r2 with
      | [] -> None
-     | c::r ->
-       if (=) c ']'
-       then Some (Z0, r)
-       else if (||) ((=) c '+') ((=) c '-')
-            then let (ds, r2) = span_while is_digit r in
-                 (match ds with
-                  | [] -> None
-                  | _::_ ->
-                    (match r2 with
-                     | [] -> None
-                     | d::r3 ->
-                       if (=) d ']'
-                       then Some
-                              ((if (=) c '-'
-                                then Z.opp (digits_Z Z0 ds)
-                                else digits_Z Z0 ds), r3)
-                       else None))
-            else None)
+     | _::r3 ->
+       (match body with
+        | [] -> Some (Z0, r3)
+        | b::body' ->
+          (match NilZero.int_of_string (if (=) b '+' then body' else body) with
+           | Some d ->
+             let k = Z.of_int d in
+             if eqb0 (offset_text k)
+                  (append ('['::('t'::[])) (append body (']'::[])))
+             then Some (k, r3)
+             else None
+           | None -> None)))
   | None -> None
 
 (** val code_word : char list -> ctok **)
@@ -4792,29 +4971,34 @@ let rec lex_code fuel s =
     (match s with
      | [] -> []
      | c::r ->
-       if (=) c nl
-       then CBad :: []
-       else if is_space c
-            then lex_code f r
-            else if (||) (is_digit c) ((=) c '.')
-                 then let (num, rest) =
-                        span_while (fun d -> (||) (is_digit d) ((=) d '.')) s
-                      in
-                      (CNum num) :: (lex_code f rest)
-                 else if (=) c '*'
-                      then (match r with
-                            | [] -> CStar :: []
-                            | d::r2 ->
-                              if (=) d '*'
-                              then CPow :: (lex_code f r2)
-                              else CStar :: (lex_code f r))
-                      else if is_opc c
-                           then (match r with
-                                 | [] -> (op1 c) :: []
-                                 | d::r2 ->
-                                   if (=) d '='
-                                   then (op2 c) :: (lex_code f r2)
-                                   else (op1 c) :: (lex_code f r))
+       if (||) (is_digit c) ((=) c '.')
+       then let (num, rest) =
+              span_while (fun d -> (||) (is_digit d) ((=) d '.')) s
+            in
+            (match rest with
+             | [] -> (CNum num) :: []
+             | d::_ ->
+               if is_alpha_ d
+               then CBad :: []
+               else (CNum num) :: (lex_code f rest))
+       else if (=) c '*'
+            then (match r with
+                  | [] -> CStar :: []
+                  | d::r2 ->
+                    if (=) d '*'
+                    then CPow :: (lex_code f r2)
+                    else CStar :: (lex_code f r))
+            else if is_opc c
+                 then (match r with
+                       | [] -> (op1 c) :: []
+                       | d::r2 ->
+                         if (=) d '='
+                         then (op2 c) :: (lex_code f r2)
+                         else (op1 c) :: (lex_code f r))
+                 else if (=) c nl
+                      then CBad :: []
+                      else if is_space c
+                           then lex_code f r
                            else if is_alpha_ c
                                 then (match prefix_rest
                                               ('s'::('e'::('l'::('f'::('.'::('_'::[]))))))
@@ -4875,6 +5059,237 @@ let program_of_script script =
      | Some _ -> None
      | None -> program_of_symbols syms stmts)
   | _ -> None
+
+(** val binop_eqb : binop -> binop -> bool **)
+
+let binop_eqb a b =
+  match a with
+  | OAdd -> (match b with
+             | OAdd -> true
+             | _ -> false)
+  | OSub -> (match b with
+             | OSub -> true
+             | _ -> false)
+  | OMul -> (match b with
+             | OMul -> true
+             | _ -> false)
+  | ODiv -> (match b with
+             | ODiv -> true
+             | _ -> false)
+  | OPow -> (match b with
+             | OPow -> true
+             | _ -> false)
+
+(** val cmpop_eqb : cmpop -> cmpop -> bool **)
+
+let cmpop_eqb a b =
+  match a with
+  | CLt -> (match b with
+            | CLt -> true
+            | _ -> false)
+  | CLe -> (match b with
+            | CLe -> true
+            | _ -> false)
+  | CEq -> (match b with
+            | CEq -> true
+            | _ -> false)
+  | CNe -> (match b with
+            | CNe -> true
+            | _ -> false)
+  | CGt -> (match b with
+            | CGt -> true
+            | _ -> false)
+  | CGe -> (match b with
+            | CGe -> true
+            | _ -> false)
+
+(** val sexpr_eqb : sexpr -> sexpr -> bool **)
+
+let rec sexpr_eqb a b =
+  match a with
+  | ENum x -> (match b with
+               | ENum y -> eqb0 x y
+               | _ -> false)
+  | ERead (x, k) ->
+    (match b with
+     | ERead (y, j) -> (&&) (Nat.eqb x y) (Z.eqb k j)
+     | _ -> false)
+  | ENeg a1 -> (match b with
+                | ENeg b1 -> sexpr_eqb a1 b1
+                | _ -> false)
+  | EAbs a1 -> (match b with
+                | EAbs b1 -> sexpr_eqb a1 b1
+                | _ -> false)
+  | EBin (o, a1, a2) ->
+    (match b with
+     | EBin (o', b1, b2) ->
+       (&&) ((&&) (binop_eqb o o') (sexpr_eqb a1 b1)) (sexpr_eqb a2 b2)
+     | _ -> false)
+  | EMax (a1, a2) ->
+    (match b with
+     | EMax (b1, b2) -> (&&) (sexpr_eqb a1 b1) (sexpr_eqb a2 b2)
+     | _ -> false)
+  | EMin (a1, a2) ->
+    (match b with
+     | EMin (b1, b2) -> (&&) (sexpr_eqb a1 b1) (sexpr_eqb a2 b2)
+     | _ -> false)
+  | EIf (o, l, r, a1, a2) ->
+    (match b with
+     | EIf (o', l', r', b1, b2) ->
+       (&&)
+         ((&&)
+           ((&&) ((&&) (cmpop_eqb o o') (sexpr_eqb l l')) (sexpr_eqb r r'))
+           (sexpr_eqb a1 b1)) (sexpr_eqb a2 b2)
+     | _ -> false)
+  | ECall1 (g, a1) ->
+    (match b with
+     | ECall1 (g', b1) -> (&&) (Nat.eqb g g') (sexpr_eqb a1 b1)
+     | _ -> false)
+  | ECall2 (g, a1, a2) ->
+    (match b with
+     | ECall2 (g', b1, b2) ->
+       (&&) ((&&) (Nat.eqb g g') (sexpr_eqb a1 b1)) (sexpr_eqb a2 b2)
+     | _ -> false)
+
+(** val named_stmt_eqb :
+    (char list * sstmt) -> (char list * sstmt) -> bool **)
+
+let named_stmt_eqb a b =
+  let (y, s) = a in
+  let SAssign (i, k, e) = s in
+  let (y', s1) = b in
+  let SAssign (i', k', e') = s1 in
+  (&&) ((&&) ((&&) (eqb0 y y') (Nat.eqb i i')) (Z.eqb k k')) (sexpr_eqb e e')
+
+(** val code_agrees : (char list -> nat option) -> char list -> bool **)
+
+let code_agrees row eq =
+  match stmt_of_equation row eq with
+  | Some s ->
+    (match code_text eq with
+     | Some c ->
+       (match stmt_of_code row c with
+        | Some s' -> named_stmt_eqb s' s
+        | None -> false)
+     | None -> false)
+  | None -> true
+
+(** val program_agrees : symbol list -> char list list -> bool **)
+
+let program_agrees syms stmts =
+  forallb (code_agrees (row_of (names_of syms)))
+    (filter (fun st -> negb ((&&) (head_is '`' st) (last_is '`' st))) stmts)
+
+(** val program_of_script_checked :
+    char list -> (char list list * sprogram) option **)
+
+let program_of_script_checked script =
+  match parse_model_nocheck script with
+  | POk syms ->
+    let (stmts, o) = split_M script in
+    (match o with
+     | Some _ -> None
+     | None ->
+       if program_agrees syms stmts
+       then program_of_symbols syms stmts
+       else None)
+  | _ -> None
+
+(** val is_series : kind -> bool **)
+
+let is_series = function
+| KParameter -> true
+| KError -> true
+| KVariable -> true
+| _ -> false
+
+type pclass =
+| PNone
+| PDig
+| PWord
+
+(** val digdot : char -> bool **)
+
+let digdot c =
+  (||) (is_digit c) ((=) c '.')
+
+(** val str_all : (char -> bool) -> char list -> bool **)
+
+let rec str_all p = function
+| [] -> true
+| c::r -> (&&) (p c) (str_all p r)
+
+(** val kw_text : xtok -> char list option **)
+
+let kw_text = function
+| XCmp _ -> None
+| XIf -> Some ('i'::('f'::[]))
+| XElse -> Some ('e'::('l'::('s'::('e'::[]))))
+| XAnd -> Some ('a'::('n'::('d'::[])))
+| XOr -> Some ('o'::('r'::[]))
+| XNot -> Some ('n'::('o'::('t'::[])))
+
+(** val known_fun : char list -> bool **)
+
+let known_fun w =
+  (||)
+    ((||)
+      ((||)
+        ((||) (eqb0 w ('n'::('p'::('.'::('e'::('x'::('p'::[])))))))
+          (eqb0 w ('n'::('p'::('.'::('l'::('o'::('g'::[]))))))))
+        (eqb0 w ('m'::('a'::('x'::[]))))) (eqb0 w ('m'::('i'::('n'::[])))))
+    (eqb0 w ('a'::('b'::('s'::[]))))
+
+(** val tok_class : tmatch -> pclass option **)
+
+let tok_class m =
+  match tok_of_match m with
+  | CRead (name, k) ->
+    (match code_of_match m with
+     | Some c ->
+       if (&&) ((&&) (is_series m.mkind) (str_all is_idc name))
+            (eqb0 c
+              (append ('s'::('e'::('l'::('f'::('.'::('_'::[]))))))
+                (append name (offset_text k))))
+       then Some PNone
+       else None
+     | None -> None)
+  | CFun w ->
+    (match code_of_match m with
+     | Some c -> if (&&) (known_fun w) (eqb0 c w) then Some PWord else None
+     | None -> None)
+  | CX x ->
+    (match code_of_match m with
+     | Some c ->
+       (match kw_text x with
+        | Some w -> if eqb0 c w then Some PWord else None
+        | None -> None)
+     | None -> None)
+  | _ -> None
+
+(** val tight : pclass -> item list -> bool **)
+
+let rec tight p = function
+| [] -> true
+| i :: r ->
+  (match i with
+   | Chr c ->
+     (&&)
+       ((&&) ((&&) (negb (is_alpha_ c)) (negb ((=) c nl)))
+         (match p with
+          | PWord -> negb (is_fnc c)
+          | _ -> true)) (tight (if digdot c then PDig else PNone) r)
+   | Tok (_, m) ->
+     (match p with
+      | PNone -> (match tok_class m with
+                  | Some q -> tight q r
+                  | None -> false)
+      | _ -> false))
+
+(** val tight_statement : char list -> bool **)
+
+let tight_statement eq =
+  tight PNone (norm_items (scan_items eq))
 
 (** val splitlines_keep : char list -> char list -> char list list **)
 
